@@ -927,7 +927,7 @@ class Converter:
     def _translate_unary_op_expr(self, node):
         op = type(node.op)
         if op not in primop_map:
-            raise ValueError(self._message(node, self).msg(f"Unsupported operator {op!r}."))
+            raise ValueError(self._message(node, f"Unsupported operator {op!r}."))
         if self._is_constant_expr(node.operand):
             # This function changed the constant node.operand
             # and returns it. The function calling this one
